@@ -158,6 +158,8 @@ vfps::ElectricField::updateCSR( const frequency_t cutoff_frequency)
             // copy bunch profile to be padded
             auto bp = _phasespace->getProjection(0)[n];
             std::copy_n(bp.origin(),PhaseSpace::nx,_bp_padded);
+            // the padding might hold profiles placed by padBunchProfiles()
+            std::fill_n(_bp_padded+PhaseSpace::nx,_nmax-PhaseSpace::nx,0);
 
             //FFT charge density
             fft::fft_execute(_fft_bunchprofile);
@@ -255,6 +257,8 @@ vfps::meshaxis_t *vfps::ElectricField::wakePotential()
 void vfps::ElectricField::padBunchProfiles()
 {
     auto bp= _phasespace->getProjection(0);
+    // the buffer might hold a profile placed at its start by updateCSR()
+    std::fill_n(_bp_padded,_nmax,0);
     for (uint32_t b=0; b<PhaseSpace::nb; b++) {
         std::copy_n( bp.origin()+b*PhaseSpace::nx
                    , PhaseSpace::nx
